@@ -421,13 +421,15 @@ Record invocation := mk_inv {
   i_brace : bool;                    (* event!(.., { fields }, "fmt", args) *)
   i_fields : fields }.
 
-(** Prefix sets without `target:` are forwarded to the arm with `target: module_path!()`. *)
+(** Prefix sets that have no base arm of their own are forwarded to another arm (those without `target:` go to
+    the arm with `target: module_path!()`): the generated table of prefix-changing forwarding arms. *)
+Fixpoint lookup_forward (tbl : list (mkind * string * string)) (k : mkind) (p : string) : option string :=
+  match tbl with
+  | [] => None
+  | (k', p', q) :: r => if mkind_eqb k k' && String.eqb p p' then Some q else lookup_forward r k p
+  end.
 Definition canon_prefix (k : mkind) (p : string) : string :=
-  (match k, p with
-   | MEvent, "" => "target" | MEvent, "parent" => "target,parent"
-   | MSpan, "" => "target" | MSpan, "parent" => "target,parent"
-   | _, _ => p
-   end)%string.
+  match lookup_forward gen_prefix_forward k p with Some q => q | None => p end.
 
 Fixpoint lookup_body (tbl : list (mkind * string * list (branch * bool) * dispatch)) (k : mkind) (p : string)
   : option (list (branch * bool)) :=
